@@ -242,6 +242,7 @@ class Fn:
         self._reach = None
         self._conds = None
         self._cond_deps = {}
+        self._cond_src = {}
 
     def __repr__(self):
         return "Fn(%s)" % self.path
@@ -640,6 +641,22 @@ class Fn:
         v = self.value_of_operand(op)
         return self.describe_value(v, depth)
 
+    def _expand_root(self, s, depth):
+        """replace the root local of a canonical place by a description of the call that
+        produced it (so `(*_12)` reads `(*call:<Arc as Deref>::deref(&(*_1).x))`)"""
+        if depth >= 3:
+            return s
+        m = LOCAL_RE.search(s)
+        if not m:
+            return s
+        l = int(m.group(1))
+        sd = self.single_def(l)
+        if sd is not None and sd[0] == "call":
+            c = sd[2]
+            d = "call:%s(%s)" % (c.name, ",".join(self.describe(a, depth + 1) for a in c.args))
+            return s[:m.start()] + d + s[m.end():]
+        return s
+
     def describe_value(self, v, depth=0):
         if v is None:
             return "?"
@@ -662,7 +679,7 @@ class Fn:
                                                         for a in c.args))
             return "call:%s" % c.name
         if k == "place":
-            return "place:" + v["s"]
+            return "place:" + self._expand_root(v["s"], depth)
         if k == "rv":
             rv = v["rv"]
             rk = rv["k"]
@@ -676,7 +693,7 @@ class Fn:
             if rk == "cast":
                 return "cast<%s>(%s)" % (rv["to"], self.describe(rv["op"], depth + 1))
             if rk == "ref":
-                return "&" + self.cplace(rv["place"])
+                return "&" + self._expand_root(self.cplace(rv["place"]), depth)
             if rk == "aggregate":
                 if rv.get("agg") == "adt":
                     return "%s::%s(%s)" % (rv["adt"], rv["variant"],
@@ -769,6 +786,7 @@ class Fn:
                 c = ("in", desc, frozenset(vals))
             out[tb].add(c)
             self._cond_deps[c] = frozenset(deps)
+            self._cond_src[c] = v
         ob = t["otherwise"]
         if not self.is_unreachable_block(ob) and ob not in by_t:
             if is_bool and len(allvals) == 1:
@@ -777,6 +795,7 @@ class Fn:
                 c = ("ne", desc, frozenset(allvals))
             out[ob].add(c)
             self._cond_deps[c] = frozenset(deps)
+            self._cond_src[c] = v
         return out
 
     def _desc_deps(self, v, depth=0):
@@ -880,6 +899,40 @@ class Fn:
 
     def conds_at(self, bb):
         return self.path_conds().get(bb, frozenset())
+
+    def cmp_conds_at(self, bb):
+        """comparisons that must hold at bb: list of (op, lhs_operand, rhs_operand, truth)"""
+        out = []
+        for c in self.conds_at(bb):
+            if c[0] != "eq" or not isinstance(c[2], bool):
+                continue
+            v = self._cond_src.get(c)
+            if v and v.get("k") == "rv" and v["rv"]["k"] == "binop" and \
+                    v["rv"]["op"] in ("Eq", "Ne", "Lt", "Le", "Gt", "Ge"):
+                out.append((v["rv"]["op"], v["rv"]["l"], v["rv"]["r"], c[2]))
+        return out
+
+    def same_origin(self, a, b):
+        """do two operands denote the same value (same constant, same argument, result of the
+        same call / statement, or the same canonical place)?"""
+        va, vb = self.value_of_operand(a), self.value_of_operand(b)
+        if va is None or vb is None or va["k"] != vb["k"]:
+            return False
+        k = va["k"]
+        if k == "const":
+            return const_val(va["const"]) == const_val(vb["const"]) and \
+                const_val(va["const"]) is not None
+        if k == "arg":
+            return va["n"] == vb["n"]
+        if k == "call":
+            return va["call"].bb == vb["call"].bb
+        if k == "place":
+            return va["s"] == vb["s"]
+        if k == "rv":
+            return (va["bb"], va["idx"]) == (vb["bb"], vb["idx"])
+        if k == "multi":
+            return va["local"] == vb["local"]
+        return False
 
     def variants_at(self, bb, place_s, adt=None):
         """set of variants the place may be in at bb (from variant / variantin facts) or None"""
